@@ -114,7 +114,25 @@ def gen_C09(rng, tier):
         out.append(G.el_case(rng, cls, rng.choice(kinds) if cls in ('D', 'U') else ('mult' if cls in ('DM', 'UM') else 'dbl')))
     return out
 
+def gen_C10(rng, tier):
+    k = 110 if tier == 'quick' else 1500
+    kinds = ['none', 'int', 'str'] if tier == 'quick' else G.LABEL_KINDS_ALL
+    out = []
+    for _ in range(k):
+        out += G.sub_cases(rng, rng.choice(['D', 'U']), rng.choice(kinds), all_subsets_upto=4 if tier == 'quick' else 5)
+    return out
+def route_prefixed(case):
+    t = case.split()
+    return 'classes' if t[0] in ('SUB',) else route_eq(case)
+
 PROPS = {
+ 'C10': dict(harness='classes', gen=gen_C10, shrink=None, histogram=lambda cases: {'subset_sizes': {str(k): sum(1 for c in cases if len(c.split('|')[-1].split()) == k) for k in range(0, 7)}},
+             nontrivial=lambda c, I: any(len(l.split()) > 4 and l.split()[4] not in ('0', '|') for l in I[1:2]), model_name='TopologyModel.subgraph / subgraph_remap',
+             rule='graphs built by seeded histories (directed and undirected, unlabelled / int / std::string labels, self-loops, sizes 0-5) x ALL 2^n vertex subsets for n <= 4 '
+                  '(n = 5: empty, full and 10 random subsets); rarely a subset containing an out-of-range vertex (std::out_of_range expected). The harness reports the iteration order '
+                  'of its unordered_set; getSubgraph (all observers) and getSubgraphWithRemap (all observers + the returned map) are compared with the Coq model given that order, and '
+                  'with the spec: induced subgraph, and its image under the RETURNED map after checking that the map is a bijection onto 0..|S|-1; '
+                  'non-trivial = the extracted subgraph has at least one edge'),
  'C09': dict(harness=['classes', 'multi'], gen=gen_C09, route=route_eq, coq_term=G.coq_term_conv, coq_imports=MW_IMPORTS + ' ConvModel', shrink=None,
              histogram=lambda cases: {'conversion_cases': sum(1 for c in cases if c.startswith('CV')), 'constructor_cases': sum(1 for c in cases if c.startswith('EL'))},
              nontrivial=lambda c, I: ';' in c, model_name='reversed / to_directed / of_directed / of_edge_list models',
